@@ -534,3 +534,79 @@ func (x *runner) tarHeaderScenario(r *mc.Run) {
 			return !r.Expired()
 		})
 }
+
+// ---- two defects at once: one in the control member, one in the data member ----
+
+type memberDefect struct {
+	desc string
+	m    *gen.ArmMember // nil: the member is absent
+}
+
+func (x *runner) doubleDefectScenario(r *mc.Run) {
+	goodCtl, goodDat := tarOf("./control", controlText), tarOf("./usr/share/doc/a/x", "hello\n")
+	mp := func(name string, data []byte) *gen.ArmMember { m := mem(name, data); return &m }
+	gzCtl, gzDat := gz(goodCtl), gz(goodDat)
+	ctlKinds := []memberDefect{
+		{"control fine (stored)", mp("control.tar", goodCtl)},
+		{"control fine (gzip)", mp("control.tar.gz", gzCtl)},
+		{"control.tar.gz is not gzip", mp("control.tar.gz", goodCtl)},
+		{"control.tar.gz empty", mp("control.tar.gz", []byte{})},
+		{"control.tar.gz cut in half", mp("control.tar.gz", gzCtl[:len(gzCtl)/2])},
+		{"control.tar without a control entry", mp("control.tar", tarOf("./md5sums", "x\n"))},
+		{"control.tar is text", mp("control.tar", []byte("not a tar\n"))},
+		{"control.tar empty", mp("control.tar", []byte{})},
+		{"control paragraph with a bad Version", mp("control.tar", tarOf("./control", strings.Replace(controlText, "1.0-1", "-", 1)))},
+		{"control paragraph without Package", mp("control.tar", tarOf("./control", "Version: 1\nArchitecture: all\n"))},
+		{"control.bin (not a tar by name)", mp("control.bin", goodCtl)},
+		{"control member absent", nil},
+	}
+	datKinds := []memberDefect{
+		{"data fine (stored)", mp("data.tar", goodDat)},
+		{"data fine (gzip)", mp("data.tar.gz", gzDat)},
+		{"data.bin (not a tar by name)", mp("data.bin", goodDat)},
+		{"data. (empty extension)", mp("data.", goodDat)},
+		{"data.tar.gz is not gzip", mp("data.tar.gz", goodDat)},
+		{"data.tar.gz empty", mp("data.tar.gz", []byte{})},
+		{"data.tar.gz is 5 bytes of gzip", mp("data.tar.gz", gzDat[:5])},
+		{"data.tar.gz.x (two extensions)", mp("data.tar.gz.x", gzDat)},
+		{"data member absent", nil},
+	}
+	binKinds := []memberDefect{{"", mp("debian-binary", []byte("2.0\n"))}, {" + debian-binary 3.0", mp("debian-binary", []byte("3.0\n"))}}
+	type din struct {
+		desc string
+		ms   []gen.ArmMember
+	}
+	var ins []din
+	for _, bk := range binKinds {
+		for _, c := range ctlKinds {
+			for _, d := range datKinds {
+				for order := 0; order < 2; order++ {
+					ms := []gen.ArmMember{*bk.m}
+					parts := []*gen.ArmMember{c.m, d.m}
+					if order == 1 {
+						parts = []*gen.ArmMember{d.m, c.m}
+					}
+					for _, p := range parts {
+						if p != nil {
+							ms = append(ms, *p)
+						}
+					}
+					ins = append(ins, din{c.desc + " x " + d.desc + bk.desc + map[int]string{0: "", 1: " (data member first)"}[order], ms})
+				}
+			}
+		}
+	}
+	const chunk = 8
+	r.Scenario("double-defects", map[string]interface{}{"inputs": len(ins), "control_member": len(ctlKinds), "data_member": len(datKinds), "debian_binary": 2, "member_orders": 2,
+		"compared": "result class, fields, members AND the error text, between a load with sorted and a load with reversed map orders (" + MapOrderNote + ")"},
+		(len(ins)+chunk-1)/chunk, func(shard int, st *mc.Stats) bool {
+			lim := limiter{}
+			for i := shard * chunk; i < (shard+1)*chunk && i < len(ins); i++ {
+				st.Transitions++
+				if !x.one("double-defects", st, lim, gen.ArmBuild(ins[i].ms), "load+text", ins[i].desc) {
+					return false
+				}
+			}
+			return !r.Expired()
+		})
+}
